@@ -1,11 +1,16 @@
 // C09 — HTTP request parsing: the real HttpServer::serve(Socket) is run over an in-memory scripted connection (vnet) under
 // the scheduler's virtual clock; every request target over small alphabets, a grammar of request streams each cut at every
-// byte and delivered in every 2-chunk split / byte-wise, and all short URL strings are enumerated.
+// byte and delivered in every 2-chunk split / byte-wise / with a stalling peer, and all short URL strings are enumerated.
+// Second part (--small, flavour asan_small): the streams that carry a body or a file response, with a 5-byte receive block.
 #include <asl/HttpServer.h>
 #include <asl/Http.h>
 #include <asl/Socket.h>
 #include <asl/File.h>
 #include <map>
+#include <pthread.h>
+#include <sys/stat.h>
+#include <sys/socket.h>
+#include <netinet/in.h>
 #include "vf.h"
 #include "aslx.h"
 #include "vsched.h"
@@ -14,19 +19,29 @@ using namespace asl;
 using vf::fmt;
 
 static int C_EVAL, C_DIST, C_EXEC, C_POINTS, W_DELIVERED, W_DROPPED, W_DOTDOT, W_CHUNKED, W_LENGTH_BODY, W_KEEPALIVE, W_RANGE, W_TRUNC, W_SPLIT, W_EXPECT, W_FOLDED, W_QUERY;
+// result-based witnesses of the extensions (each must be non-zero in a run that enumerates its family)
+static int W_NUL_PATH, W_NUL_DOTDOT, W_BADLINE_DROPPED, W_BADLINE_LENIENT, W_HEXCHUNK, W_LONG_DELIVERED, W_LONG_DROPPED, W_EMPTYVAL, W_EXACTHDR, W_TABFOLD, W_R100, W_R417, W_F200, W_F206, W_F416, W_F404,
+	W_BLOCKX, W_STALL, W_STALL_TIMEOUT, W_STALL_DELIVERED, W_STALL_PARTIAL, W_STALL_GAVEUP, W_OUTSIDE_TRIED, W_FOLD3;
 
-struct Rec { std::string method, path, query, proto, body; std::map<std::string, std::string> headers, params; };
+struct Rec {
+	std::string method, path, query, proto, body, lookupFail;
+	std::map<std::string, std::string> headers, params; // header names in lower case (the statement asks for case-insensitive lookup, not for a spelling)
+	std::map<std::string, std::string> alt;               // expected side only: a second acceptable value (a folded header joined with or without a space)
+};
+static std::string lower(std::string s) { for (size_t i = 0; i < s.size(); i++) s[i] = (char)tolower((unsigned char)s[i]); return s; }
 struct Srv : public HttpServer {
 	std::vector<Rec> got;
 	Srv() : HttpServer(-1) {}
 	void serve(HttpRequest& q, HttpResponse& r) {
 		Rec x; x.method = vfx::S(q.method()); x.path = vfx::S(q.path()); x.query = vfx::S(q.querystring()); x.proto = vfx::S(q.protocol());
 		const ByteArray& b = q.body(); x.body.assign((const char*)b.data(), b.length());
-		foreach2 (String & k, const String& v, q.headers()) x.headers[vfx::S(k)] = vfx::S(v);
+		int nh = 0;
+		foreach2 (String & k, const String& v, q.headers()) { x.headers[lower(vfx::S(k))] = vfx::S(v); nh++; }
+		if (nh != (int)x.headers.size()) x.lookupFail = "<two stored names differ only in case>";
 		const Dic<>& qp = q.query();
 		foreach2 (String & k2, const String& v2, qp) x.params[vfx::S(k2)] = vfx::S(v2);
 		// case-insensitive lookup must agree with the stored value
-		foreach2 (String & k3, const String& v3, q.headers()) { if (q.header(k3.toLowerCase()) != v3 || q.header(k3.toUpperCase()) != v3 || !q.hasHeader(k3.toLowerCase())) x.headers["!case-insensitive-lookup-failed"] = vfx::S(k3); }
+		foreach2 (String & k3, const String& v3, q.headers()) { if (q.header(k3.toLowerCase()) != v3 || q.header(k3.toUpperCase()) != v3 || !q.hasHeader(k3.toLowerCase())) x.lookupFail = vfx::S(k3); }
 		got.push_back(x);
 		if (_webroot.ok()) HttpServer::serve(q, r); else r.put("ok");
 	}
@@ -40,10 +55,12 @@ static void onFatal(const char* what, const std::string& schedule) {
 	vf::restart_worker();
 }
 
-struct Outcome { std::vector<Rec> got; std::string written; std::string asan; int misuse; int leakedFds; };
+struct Outcome { std::vector<Rec> got; std::string written; std::string asan; int misuse; int leakedFds; double vtime; };
 static std::string g_root;
-static Outcome runStream(const std::vector<std::string>& chunks, int readMax, bool fileRoot) {
-	Outcome o; o.misuse = 0; o.leakedFds = 0;
+static const char* SECRET = "SECRET9";
+static void account(const vsched::Result& x) { vf::add(C_EXEC); vf::add(C_POINTS, x.points.size()); static int cst = vf::counter("states"); vf::add(cst, vsched::states_count()); }
+static Outcome runStream(const std::vector<std::string>& chunks, int readMax, bool fileRoot, int stepLimit = 20000, bool probe = true) {
+	Outcome o; o.misuse = 0; o.leakedFds = 0; o.vtime = 0;
 	auto body = [&]() {
 		vf::asan_clear();
 		vnet::reset(); vnet::enable(true); vnet::set_limits(readMax, 0);
@@ -60,8 +77,62 @@ static Outcome runStream(const std::vector<std::string>& chunks, int readMax, bo
 		if (vf::asan_tripped()) o.asan = vf::asan_what();
 	};
 	vsched::states_reset();
+	vsched::set_state_probe(probe ? vnet::state_hash : 0); // the probe hashes the pending input at every point: quadratic for the 16000-byte lines
+	vsched::Result x = vsched::run_once(std::vector<uint8_t>(), body, stepLimit);
+	o.vtime = x.vtime;
+	account(x);
+	return o;
+}
+
+// A connection whose peer is a second thread under the scheduler: it sends the first part, stalls for `stall` virtual seconds
+// (nothing arrives and the stream has not ended, so the server's select() calls time out), sends the rest, ends the stream,
+// and collects what the server wrote until the server closes.
+struct PeerArg { int fd; std::string c1, c2, got; unsigned stall_us; };
+static void* peerMain(void* p) {
+	PeerArg* a = (PeerArg*)p;
+	if (!a->c1.empty()) send(a->fd, a->c1.data(), a->c1.size(), 0);
+	usleep(a->stall_us);
+	if (!a->c2.empty()) send(a->fd, a->c2.data(), a->c2.size(), 0);
+	shutdown(a->fd, SHUT_WR);
+	char buf[4096];
+	for (;;) { ssize_t n = recv(a->fd, buf, sizeof buf, 0); if (n <= 0) break; a->got.append(buf, (size_t)n); }
+	close(a->fd);
+	return 0;
+}
+static Outcome runStalled(const std::string& c1, const std::string& c2, int stallSeconds, bool fileRoot) {
+	Outcome o; o.misuse = 0; o.leakedFds = 0; o.vtime = 0;
+	PeerArg pa; pa.c1 = c1; pa.c2 = c2; pa.stall_us = (unsigned)stallSeconds * 1000000u; pa.fd = -1;
+	bool setupOk = true;
+	auto body = [&]() {
+		vf::asan_clear();
+		vnet::reset(); vnet::enable(true); vnet::set_limits(0, 0);
+		sockaddr_in sa; memset(&sa, 0, sizeof sa); sa.sin_family = AF_INET; sa.sin_port = htons(4009); sa.sin_addr.s_addr = htonl(0x7f000001);
+		int ls = socket(AF_INET, SOCK_STREAM, 0), c = socket(AF_INET, SOCK_STREAM, 0);
+		if (ls < 0 || c < 0 || bind(ls, (sockaddr*)&sa, sizeof sa) || listen(ls, 1) || connect(c, (sockaddr*)&sa, sizeof sa)) { setupOk = false; vnet::enable(false); return; }
+		int fd = accept(ls, 0, 0);
+		close(ls);
+		if (fd < 0) { setupOk = false; vnet::enable(false); return; }
+		pa.fd = c;
+		pthread_t th;
+		if (pthread_create(&th, 0, peerMain, &pa)) { setupOk = false; vnet::enable(false); return; }
+		{
+			Srv srv;
+			if (fileRoot) srv.setRoot(g_root.c_str());
+			{ Socket client(fd); ((SocketServer&)srv).serve(client); }
+			o.got = srv.got;
+		}
+		pthread_join(th, 0);
+		o.written = pa.got;
+		o.misuse = vnet::misuse(); o.leakedFds = vnet::open_fds();
+		vnet::enable(false);
+		if (vf::asan_tripped()) o.asan = vf::asan_what();
+	};
+	vsched::states_reset();
+	vsched::set_state_probe(vnet::state_hash);
 	vsched::Result x = vsched::run_once(std::vector<uint8_t>(), body, 20000);
-	vf::add(C_EXEC); vf::add(C_POINTS, x.points.size()); { static int cst = vf::counter("states"); vf::add(cst, vsched::states_count()); }
+	if (!setupOk) { fprintf(stderr, "HARNESS ERROR: virtual listen/connect/accept failed %s\n", g_case.c_str()); _exit(2); }
+	o.vtime = x.vtime;
+	account(x);
 	return o;
 }
 
@@ -73,11 +144,15 @@ static std::string pctDecode(const std::string& s, bool* valid) {
 	}
 	return r;
 }
-static std::string showRec(const Rec& r) { std::string s = r.method + " path=" + vf::hex(r.path) + " query=" + r.query + " body=" + vf::hex(r.body) + " headers{"; for (std::map<std::string, std::string>::const_iterator it = r.headers.begin(); it != r.headers.end(); ++it) s += it->first + ":" + it->second + ";"; return s + "}"; }
+static std::string brief(const std::string& s) { return s.size() <= 48 ? vf::hex(s) : vf::hex(s.substr(0, 16)) + fmt("..(%d bytes)..", (int)s.size()) + vf::hex(s.substr(s.size() - 16)); }
+static std::string text(const std::string& s) { for (size_t i = 0; i < s.size(); i++) if ((unsigned char)s[i] < 32 || (unsigned char)s[i] > 126) return "hex " + brief(s); return s.size() <= 48 ? s : brief(s); }
+static std::string showRec(const Rec& r) { std::string s = r.method + " path=" + brief(r.path) + " query=" + r.query + " body=" + brief(r.body) + " headers{"; for (std::map<std::string, std::string>::const_iterator it = r.headers.begin(); it != r.headers.end(); ++it) s += it->first + ":" + text(it->second) + ";"; return s + "}"; }
 
 static void commonChecks(const Outcome& o, const std::string& kase, const std::string& what) {
 	if (!o.asan.empty()) vf::violation("asan", "ASan " + o.asan + " while serving " + what, kase);
-	for (size_t i = 0; i < o.got.size(); i++) if (o.got[i].path.find("..") != std::string::npos) vf::violation("dotdot_in_path", "decoded request path contains '..': " + vf::hex(o.got[i].path) + " for " + what, kase);
+	for (size_t i = 0; i < o.got.size(); i++) if (o.got[i].path.find("..") != std::string::npos) vf::violation("dotdot_in_path", "decoded request path contains '..': " + brief(o.got[i].path) + " for " + what, kase);
+	for (size_t i = 0; i < o.got.size(); i++) if (o.got[i].path.find('\0') != std::string::npos) vf::add(W_NUL_PATH);
+	if (o.written.find(SECRET) != std::string::npos) vf::violation("served_outside_root", "the response contains a file that lies outside the web root, for " + what, kase);
 	if (o.misuse) vf::violation("fd_misuse", fmt("%d operation(s) on a closed descriptor while serving ", o.misuse) + what, kase);
 	if (o.leakedFds) vf::violation("fd_leak", fmt("%d connection descriptor(s) still open after serve() returned and the socket was dropped for ", o.leakedFds) + what, kase);
 }
@@ -87,82 +162,190 @@ static void targetCase(const std::string& target, const std::string& kase) {
 	g_case = kase; vf::cur(kase); vf::add(C_EVAL); vf::add(C_DIST);
 	std::vector<std::string> ch(1, "GET " + target + " HTTP/1.1\r\nHost: x\r\n\r\n");
 	Outcome o = runStream(ch, 0, false);
-	commonChecks(o, kase, "target '" + target + "'");
-	if (o.got.size() > 1) vf::violation("spurious_request", "more than one request delivered for target '" + target + "'", kase);
-	if (o.got.empty()) { vf::add(W_DROPPED); return; }
-	vf::add(W_DELIVERED);
 	// reference: fragment from the first '#', query from the first '?' before it
 	size_t h = target.find('#'); std::string t = target.substr(0, h);
 	size_t q = t.find('?'); std::string rawPath = t.substr(0, q), rawQuery = q == std::string::npos ? "" : t.substr(q + 1);
 	bool valid; std::string path = pctDecode(rawPath, &valid);
-	if (path.find('\0') != std::string::npos) valid = false;
+	size_t nul = path.find('\0');
+	if (nul != std::string::npos && path.find("..", nul) != std::string::npos) vf::add(W_NUL_DOTDOT); // a '..' that C-string functions cannot see
+	commonChecks(o, kase, "target '" + target + "'");
+	if (o.got.size() > 1) vf::violation("spurious_request", "more than one request delivered for target '" + target + "'", kase);
+	if (o.got.empty()) { vf::add(W_DROPPED); return; }
+	if (nul != std::string::npos) valid = false;
 	if (path.find("..") != std::string::npos) { vf::add(W_DOTDOT); return; } // the sanitised form is implementation-defined; only absence of '..' is required (checked above)
-	if (valid && h != 0 && q != 0 && o.got[0].path != path) vf::violation("path_mismatch", "target '" + target + "' delivered path " + vf::hex(o.got[0].path) + ", reference " + vf::hex(path), kase);
-	if (valid && h != 0 && q != 0 && o.got[0].query != rawQuery) vf::violation("query_mismatch", "target '" + target + "' delivered query string '" + o.got[0].query + "', reference '" + rawQuery + "'", kase);
+	if (!valid) return;
+	vf::add(W_DELIVERED);
+	if (o.got[0].path != path) vf::violation("path_mismatch", "target '" + target + "' delivered path " + vf::hex(o.got[0].path) + ", reference " + vf::hex(path), kase);
+	if (o.got[0].query != rawQuery) vf::violation("query_mismatch", "target '" + target + "' delivered query string '" + o.got[0].query + "', reference '" + rawQuery + "'", kase);
 }
 static std::string tokString(const char* const* toks, int nt, int len, uint64_t idx) { std::string s; for (int i = 0; i < len; i++) { s += toks[idx % nt]; idx /= nt; } return s; }
+static bool hasDigit(int nt, int len, uint64_t idx, int d) { for (int i = 0; i < len; i++) { if ((int)(idx % nt) == d) return true; idx /= nt; } return false; }
 
 // ---- part B: request streams
-struct Stream { std::string name, bytes; std::vector<Rec> expect; bool wellformed; bool fileRoot; };
+enum Kind { K_EXACT, K_SAFETY, K_OPTIONAL };
+// K_EXACT:    complete and well formed: every request is delivered exactly once, in order, as sent
+// K_SAFETY:   malformed beyond any reading: termination and memory safety only
+// K_OPTIONAL: one request that a server may refuse (request line with a missing / extra separator, line at the length cap):
+//             either nothing is delivered, or one request that equals one of the listed readings
+struct Stream {
+	std::string name, bytes; std::vector<Rec> expect; Kind kind; bool fileRoot;
+	bool thoroughOnly;      // part of the full product: not run in the quick tier
+	bool core;              // small set used for the stalled-peer modes in the quick tier and for the small-block part
+	bool longline;          // a line at the 16000-byte cap: cut / split only at `positions`, larger step budget
+	bool badline;           // malformed request line
+	bool outside;           // asks the file server for a file outside the root
+	std::vector<int> positions;
+	Stream() : kind(K_SAFETY), fileRoot(false), thoroughOnly(false), core(false), longline(false), badline(false), outside(false) {}
+};
 static Rec mk(const std::string& m, const std::string& p, const std::string& q, const std::string& body) { Rec r; r.method = m; r.path = p; r.query = q; r.body = body; return r; }
+struct Line { const char* text; const char* method; const char* path; const char* query; };
+struct Hdr { const char* text; const char* name; const char* value; const char* alt; bool ok; bool first; };
+struct Body { const char* hdr; const char* bytes; const char* body; bool ok; const char* hname; const char* hvalue; };
+static const Line LINES[] = {
+	{ "GET /p/q?x=1&y=a%20b HTTP/1.1", "GET", "/p/q", "x=1&y=a%20b" }, { "POST /u HTTP/1.1", "POST", "/u", "" }, { "PUT /f%2eg/ HTTP/1.0", "PUT", "/f.g/", "" } };
+static const Hdr HDRS[] = {
+	{ "", 0, 0, 0, true, false }, { "X-A: v\r\n", "x-a", "v", 0, true, false }, { "X-A:v\r\n", "x-a", "v", 0, true, false }, { "x-a:  v \r\n", "x-a", "v", 0, true, false },
+	{ "X-A: v\r\n  w\r\n", "x-a", "vw", "v w", true, false }, // a folded value: joined with or without a space (RFC 7230 3.2.4 replaces the fold by spaces)
+	{ "X-A: v\r\nX-B: w:z\r\n", "x-b", "w:z", 0, true, false }, { "nocolon\r\n", 0, 0, 0, false, false }, { ": v\r\n", 0, 0, 0, false, false }, { "Expect: 100-continue\r\n", "expect", "100-continue", 0, true, false },
+	// 9..13 (extension): empty value, fold by a tab, space before the colon (must be refused by RFC 7230: safety only), fold with nothing to continue
+	{ "X-A:\r\n", "x-a", "", 0, true, false }, { "X-A: v\r\n\tw\r\n", "x-a", "vw", "v w", true, false }, { "X-A : v\r\n", 0, 0, 0, false, false }, { " w\r\n", 0, 0, 0, false, true },
+	{ "X-A: v\r\n w\r\n\tx\r\n", "x-a", "vwx", "v w x", true, false } }; // 13: a value folded over three lines
+static const Body BODIES[] = {
+	{ "", "", "", true, 0, 0 }, { "Content-Length: 0\r\n", "", "", true, "content-length", "0" }, { "Content-Length: 3\r\n", "abc", "abc", true, "content-length", "3" }, { "Content-Length: 6\r\n", "a\r\n\r\nb", "a\r\n\r\nb", true, "content-length", "6" },
+	{ "Content-Length: -1\r\n", "abc", 0, false, 0, 0 }, { "Content-Length: abc\r\n", "abc", 0, false, 0, 0 }, { "Content-Length: 99999999999\r\n", "abc", 0, false, 0, 0 }, { "Content-Length: 10\r\n", "abc", 0, false, 0, 0 },
+	{ "Transfer-Encoding: chunked\r\n", "3\r\nabc\r\n2\r\nde\r\n0\r\n\r\n", "abcde", true, "transfer-encoding", "chunked" }, { "Transfer-Encoding: chunked\r\n", "1\r\na\r\n0\r\n\r\n", "a", true, "transfer-encoding", "chunked" },
+	{ "Transfer-Encoding: chunked\r\n", "zz\r\nabc\r\n0\r\n\r\n", 0, false, 0, 0 }, { "Transfer-Encoding: chunked\r\n", "3\r\nabcde\r\n0\r\n\r\n", 0, false, 0, 0 }, { "Transfer-Encoding: chunked\r\n", "7fffffff\r\nabc", 0, false, 0, 0 }, { "Transfer-Encoding: chunked\r\n", "ffffffff\r\nabc\r\n0\r\n\r\n", 0, false, 0, 0 },
+	// 14..17 (extension): chunk sizes that are not decimal digits below 4: hex letter in both cases, two digits, chunk extension
+	{ "Transfer-Encoding: chunked\r\n", "a\r\n0123456789\r\n0\r\n\r\n", "0123456789", true, "transfer-encoding", "chunked" }, { "Transfer-Encoding: chunked\r\n", "A\r\n0123456789\r\n0\r\n\r\n", "0123456789", true, "transfer-encoding", "chunked" },
+	{ "Transfer-Encoding: chunked\r\n", "10\r\n0123456789abcdef\r\n0\r\n\r\n", "0123456789abcdef", true, "transfer-encoding", "chunked" }, { "Transfer-Encoding: chunked\r\n", "3;x=1\r\nabc\r\n0\r\n\r\n", "abc", true, "transfer-encoding", "chunked" } };
+enum { NL = sizeof LINES / sizeof *LINES, NH = sizeof HDRS / sizeof *HDRS, NB = sizeof BODIES / sizeof *BODIES, NH_OLD = 9, NB_OLD = 14 };
+static const char* RANGES[] = { "", "Range: bytes=0-1\r\n", "Range: bytes=5\r\n", "Range: bytes=-\r\n", "Range: bytes=a-b\r\n", "Range: bytes=1-0\r\n", "Range: bytes=2-2\r\n", "Range: bytes=0-99\r\n", "Range: bytes=1-2,4-5\r\n", "Range: lines=1-2\r\n", "If-Modified-Since: Tue, 30 Nov 2021 00:31:10 GMT\r\n", "If-Modified-Since: junk\r\n", "Range: bytes=7-9\r\n" /* 12 (extension): beyond the end of the file */ };
+
+static Stream product(int l, int h, int b) {
+	Stream s;
+	s.name = fmt("L%d.H%d.B%d", l, h, b);
+	s.bytes = std::string(LINES[l].text) + "\r\n" + (HDRS[h].first ? HDRS[h].text : "") + "Host: h\r\n" + (HDRS[h].first ? "" : HDRS[h].text) + BODIES[b].hdr + "\r\n" + BODIES[b].bytes;
+	s.kind = HDRS[h].ok && BODIES[b].ok ? K_EXACT : K_SAFETY;
+	if (s.kind == K_EXACT) {
+		Rec r = mk(LINES[l].method, LINES[l].path, LINES[l].query, BODIES[b].body); r.headers["host"] = "h";
+		if (HDRS[h].name) { r.headers[HDRS[h].name] = HDRS[h].value; if (HDRS[h].alt) r.alt[HDRS[h].name] = HDRS[h].alt; }
+		if (h == 5) r.headers["x-a"] = "v";
+		if (BODIES[b].hname) r.headers[BODIES[b].hname] = BODIES[b].hvalue;
+		s.expect.push_back(r);
+	}
+	if (s.kind == K_EXACT && l == 2 && BODIES[b].hname && !strcmp(BODIES[b].hname, "transfer-encoding")) s.kind = K_OPTIONAL; // Transfer-Encoding is not defined for HTTP/1.0: refusing is legitimate
+	s.core = l == 0 && h == 0;
+	return s;
+}
+static Stream optional1(const std::string& name, const std::string& bytes) { Stream s; s.name = name; s.bytes = bytes; s.kind = K_OPTIONAL; return s; }
 static std::vector<Stream> streams() {
 	std::vector<Stream> v;
-	struct Line { const char* text; const char* method; const char* path; const char* query; } lines[] = {
-		{ "GET /p/q?x=1&y=a%20b HTTP/1.1", "GET", "/p/q", "x=1&y=a%20b" }, { "POST /u HTTP/1.1", "POST", "/u", "" }, { "PUT /f%2eg/ HTTP/1.0", "PUT", "/f.g/", "" } };
-	struct Hdr { const char* text; const char* name; const char* value; bool ok; } hdrs[] = {
-		{ "", 0, 0, true }, { "X-A: v\r\n", "X-A", "v", true }, { "X-A:v\r\n", "X-A", "v", true }, { "x-a:  v \r\n", "X-A", "v", true }, { "X-A: v\r\n  w\r\n", "X-A", "vw", true },
-		{ "X-A: v\r\nX-B: w:z\r\n", "X-B", "w:z", true }, { "nocolon\r\n", 0, 0, false }, { ": v\r\n", 0, 0, false }, { "Expect: 100-continue\r\n", "Expect", "100-continue", true } };
-	struct Body { const char* hdr; const char* bytes; const char* body; bool ok; } bodies[] = {
-		{ "", "", "", true }, { "Content-Length: 0\r\n", "", "", true }, { "Content-Length: 3\r\n", "abc", "abc", true }, { "Content-Length: 6\r\n", "a\r\n\r\nb", "a\r\n\r\nb", true },
-		{ "Content-Length: -1\r\n", "abc", 0, false }, { "Content-Length: abc\r\n", "abc", 0, false }, { "Content-Length: 99999999999\r\n", "abc", 0, false }, { "Content-Length: 10\r\n", "abc", 0, false },
-		{ "Transfer-Encoding: chunked\r\n", "3\r\nabc\r\n2\r\nde\r\n0\r\n\r\n", "abcde", true }, { "Transfer-Encoding: chunked\r\n", "1\r\na\r\n0\r\n\r\n", "a", true },
-		{ "Transfer-Encoding: chunked\r\n", "zz\r\nabc\r\n0\r\n\r\n", 0, false }, { "Transfer-Encoding: chunked\r\n", "3\r\nabcde\r\n0\r\n\r\n", 0, false }, { "Transfer-Encoding: chunked\r\n", "7fffffff\r\nabc", 0, false }, { "Transfer-Encoding: chunked\r\n", "ffffffff\r\nabc\r\n0\r\n\r\n", 0, false } };
-	for (size_t l = 0; l < sizeof lines / sizeof *lines; l++) for (size_t h = 0; h < sizeof hdrs / sizeof *hdrs; h++) for (size_t b = 0; b < sizeof bodies / sizeof *bodies; b++) {
+	// the original grammar first (stream numbers of earlier case strings stay valid)
+	for (int l = 0; l < NL; l++) for (int h = 0; h < NH_OLD; h++) for (int b = 0; b < NB_OLD; b++) {
 		if (l > 0 && h > 4 && b > 3) continue; // keep the product moderate: full header x body product only for the first request line
-		Stream s; s.fileRoot = false;
-		s.name = fmt("L%d.H%d.B%d", (int)l, (int)h, (int)b);
-		s.bytes = std::string(lines[l].text) + "\r\nHost: h\r\n" + hdrs[h].text + bodies[b].hdr + "\r\n" + bodies[b].bytes;
-		s.wellformed = hdrs[h].ok && bodies[b].ok;
-		if (s.wellformed) { Rec r = mk(lines[l].method, lines[l].path, lines[l].query, bodies[b].body); r.headers["Host"] = "h"; if (hdrs[h].name) r.headers[hdrs[h].name] = hdrs[h].value; if (h == 5) r.headers["X-A"] = "v"; s.expect.push_back(r); }
-		v.push_back(s);
+		v.push_back(product(l, h, b));
 	}
 	// keep-alive: two pipelined requests on one connection; HTTP/1.0 without keep-alive: the second is not served
-	{ Stream s; s.fileRoot = false; s.name = "keepalive2"; s.bytes = "POST /one HTTP/1.1\r\nConnection: keep-alive\r\nContent-Length: 2\r\n\r\nhiGET /two?k=v HTTP/1.1\r\nConnection: close\r\n\r\n"; s.wellformed = true;
-	  Rec a = mk("POST", "/one", "", "hi"); a.headers["Connection"] = "keep-alive"; a.headers["Content-Length"] = "2"; Rec b = mk("GET", "/two", "k=v", ""); b.headers["Connection"] = "close"; s.expect.push_back(a); s.expect.push_back(b); v.push_back(s); }
-	{ Stream s; s.fileRoot = false; s.name = "chunked_then_second"; s.bytes = "POST /c HTTP/1.1\r\nTransfer-Encoding: chunked\r\n\r\n2\r\nxy\r\n0\r\n\r\nGET /d HTTP/1.1\r\nConnection: close\r\n\r\n"; s.wellformed = true;
-	  Rec a = mk("POST", "/c", "", "xy"); a.headers["Transfer-Encoding"] = "chunked"; Rec b = mk("GET", "/d", "", ""); b.headers["Connection"] = "close"; s.expect.push_back(a); s.expect.push_back(b); v.push_back(s); }
+	{ Stream s; s.name = "keepalive2"; s.bytes = "POST /one HTTP/1.1\r\nConnection: keep-alive\r\nContent-Length: 2\r\n\r\nhiGET /two?k=v HTTP/1.1\r\nConnection: close\r\n\r\n"; s.kind = K_EXACT; s.core = true;
+	  Rec a = mk("POST", "/one", "", "hi"); a.headers["connection"] = "keep-alive"; a.headers["content-length"] = "2"; Rec b = mk("GET", "/two", "k=v", ""); b.headers["connection"] = "close"; s.expect.push_back(a); s.expect.push_back(b); v.push_back(s); }
+	{ Stream s; s.name = "chunked_then_second"; s.bytes = "POST /c HTTP/1.1\r\nTransfer-Encoding: chunked\r\n\r\n2\r\nxy\r\n0\r\n\r\nGET /d HTTP/1.1\r\nConnection: close\r\n\r\n"; s.kind = K_EXACT; s.core = true;
+	  Rec a = mk("POST", "/c", "", "xy"); a.headers["transfer-encoding"] = "chunked"; Rec b = mk("GET", "/d", "", ""); b.headers["connection"] = "close"; s.expect.push_back(a); s.expect.push_back(b); v.push_back(s); }
 	// file serving with Range headers (web root with a 6-byte file): safety and termination only
-	static const char* ranges[] = { "", "Range: bytes=0-1\r\n", "Range: bytes=5\r\n", "Range: bytes=-\r\n", "Range: bytes=a-b\r\n", "Range: bytes=1-0\r\n", "Range: bytes=2-2\r\n", "Range: bytes=0-99\r\n", "Range: bytes=1-2,4-5\r\n", "Range: lines=1-2\r\n", "If-Modified-Since: Tue, 30 Nov 2021 00:31:10 GMT\r\n", "If-Modified-Since: junk\r\n" };
-	for (size_t r = 0; r < sizeof ranges / sizeof *ranges; r++) for (int f = 0; f < 3; f++) {
-		Stream s; s.fileRoot = true; s.wellformed = false; s.name = fmt("file%d.R%d", f, (int)r);
-		s.bytes = std::string(f == 0 ? "GET /f.txt HTTP/1.1" : f == 1 ? "GET /nofile HTTP/1.1" : "GET /sub/../f.txt HTTP/1.0") + "\r\nHost: h\r\n" + ranges[r] + "\r\n";
+	for (size_t r = 0; r < sizeof RANGES / sizeof *RANGES; r++) for (int f = 0; f < 3; f++) {
+		Stream s; s.fileRoot = true; s.kind = K_SAFETY; s.name = fmt("file%d.R%d", f, (int)r); s.core = f == 0;
+		s.bytes = std::string(f == 0 ? "GET /f.txt HTTP/1.1" : f == 1 ? "GET /nofile HTTP/1.1" : "GET /sub/../f.txt HTTP/1.0") + "\r\nHost: h\r\n" + RANGES[r] + "\r\n";
 		v.push_back(s);
+	}
+	// ---- extensions
+	// new header forms and chunk sizes: a reduced product in the quick tier, the full one (same skip rule as above) in the thorough tier
+	for (int l = 0; l < NL; l++) for (int h = 0; h < NH; h++) for (int b = 0; b < NB; b++) {
+		if (h < NH_OLD && b < NB_OLD) continue;
+		if (l > 0 && h > 4 && b > 3) continue;
+		Stream s = product(l, h, b);
+		bool quick = (h >= NH_OLD && l == 0 && (b == 0 || b == 2 || b == 8)) || (b >= NB_OLD && (l == 0 ? (h == 0 || h == 1 || h == 4 || h == 8) : h == 0));
+		s.thoroughOnly = !quick;
+		v.push_back(s);
+	}
+	// request lines without the two separating spaces, or with extra ones: refused, or read the lenient way
+	{
+		struct Bad { const char* first; const char* method; const char* path; const char* path2; } bad[] = {
+			{ "GET", "GET", "", 0 }, { "GET /a", "GET", "/a", 0 }, { " GET /a HTTP/1.1", "GET", "/a", 0 }, { "GET  HTTP/1.1", "GET", "", "HTTP/1.1" }, { "GET /a  HTTP/1.1 x", "GET", "/a", 0 }, { "\r\nGET /a HTTP/1.1", "GET", "/a", 0 } };
+		for (size_t i = 0; i < sizeof bad / sizeof *bad; i++) {
+			Stream s = optional1(fmt("badline%d", (int)i), std::string(bad[i].first) + "\r\nHost: h\r\n\r\n"); s.badline = true; s.core = true;
+			Rec r = mk(bad[i].method, bad[i].path, "", ""); r.headers["host"] = "h"; s.expect.push_back(r);
+			if (bad[i].path2) { r.path = bad[i].path2; s.expect.push_back(r); }
+			v.push_back(s);
+		}
+	}
+	// lines of n bytes before the line feed (CR included), n around the 16000-byte cap of the socket line reader: a request line
+	// and a header line. The two "s" streams carry, from byte 16001 of the over-long line on, text that would read as a request
+	// line / header line of its own if the reader silently restarted the line there.
+	for (int kind = 0; kind < 2; kind++) for (int n = 15999; n <= 16005; n++) {
+		bool smuggle = n == 16005;
+		Stream s; s.kind = K_OPTIONAL; s.longline = true; s.name = fmt(kind == 0 ? "capT.%d" : "capH.%d", n) + (smuggle ? "s" : "");
+		Rec r; int lineStart;
+		if (kind == 0) {
+			std::string target = smuggle ? "/" + std::string(15996, 'a') + "GET" : "/" + std::string(n - 15, 'a');
+			s.bytes = "GET " + target + (smuggle ? " /s HTTP/1.1" : " HTTP/1.1") + "\r\nHost: h\r\n\r\n"; lineStart = 0;
+			r = mk("GET", target, "", ""); r.headers["host"] = "h";
+		} else {
+			std::string value = smuggle ? std::string(15996, 'v') + "X-S:w" : std::string(n - 6, 'v');
+			s.bytes = "GET /p HTTP/1.1\r\nHost: h\r\n"; lineStart = (int)s.bytes.size(); s.bytes += "X-A: " + value + "\r\n\r\n";
+			r = mk("GET", "/p", "", ""); r.headers["host"] = "h"; r.headers["x-a"] = value;
+		}
+		s.expect.push_back(r);
+		for (int d = -2; d <= 3; d++) s.positions.push_back(lineStart + 16001 + d);
+		v.push_back(s);
+	}
+	// requests that try to leave the web root: whatever is answered must not be the file next to the root
+	{
+		static const char* out[] = { "/../secret.txt", "/%2e%2e/secret.txt", "/sub/..%2f..%2fsecret.txt", "/sub/%2e%2e/%2e%2e/secret.txt", "/.%2e/.%2e/secret.txt", "/..../secret.txt", "/sub/.../.../secret.txt" };
+		for (size_t i = 0; i < sizeof out / sizeof *out; i++) { Stream s; s.fileRoot = true; s.kind = K_SAFETY; s.outside = true; s.name = fmt("outside%d", (int)i); s.bytes = std::string("GET ") + out[i] + " HTTP/1.1\r\nHost: h\r\n\r\n"; v.push_back(s); }
 	}
 	return v;
 }
-static bool sameRec(const Rec& g, const Rec& e, std::string& why) {
+// bodyPrefix: a stalling peer was given up on: the body may stop early (what a server does with a slow peer is not part of the property)
+static bool sameRec(const Rec& g, const Rec& e, std::string& why, bool bodyPrefix = false) {
 	if (g.method != e.method) { why = "method '" + g.method + "' instead of '" + e.method + "'"; return false; }
-	if (g.path != e.path) { why = "path " + vf::hex(g.path) + " instead of " + vf::hex(e.path); return false; }
+	if (g.path != e.path) { why = "path " + brief(g.path) + " instead of " + brief(e.path); return false; }
 	if (g.query != e.query) { why = "query string '" + g.query + "' instead of '" + e.query + "'"; return false; }
-	if (g.body != e.body) { why = "body " + vf::hex(g.body) + " instead of " + vf::hex(e.body); return false; }
+	if (bodyPrefix ? e.body.compare(0, g.body.size(), g.body) != 0 : g.body != e.body) { why = "body " + brief(g.body) + " instead of " + brief(e.body); return false; }
+	// the header dictionary is exactly the one sent: nothing missing, nothing added
 	for (std::map<std::string, std::string>::const_iterator it = e.headers.begin(); it != e.headers.end(); ++it) {
-		std::map<std::string, std::string>::const_iterator f = g.headers.find(it->first);
-		if (f == g.headers.end() || f->second != it->second) { why = "header " + it->first + " = '" + (f == g.headers.end() ? std::string("<missing>") : f->second) + "' instead of '" + it->second + "'"; return false; }
+		std::map<std::string, std::string>::const_iterator f = g.headers.find(it->first), a = e.alt.find(it->first);
+		if (f == g.headers.end() || (f->second != it->second && (a == e.alt.end() || f->second != a->second))) { why = "header " + it->first + " = " + (f == g.headers.end() ? std::string("<missing>") : "'" + text(f->second) + "'") + " instead of '" + text(it->second) + "'"; return false; }
 	}
-	if (g.headers.count("!case-insensitive-lookup-failed")) { why = "case-insensitive header lookup failed for " + g.headers.find("!case-insensitive-lookup-failed")->second; return false; }
+	for (std::map<std::string, std::string>::const_iterator it = g.headers.begin(); it != g.headers.end(); ++it) if (!e.headers.count(it->first)) { why = "header " + it->first + " = '" + text(it->second) + "' delivered but never sent"; return false; }
+	if (!g.lookupFail.empty()) { why = "case-insensitive header lookup failed for " + g.lookupFail; return false; }
 	if (e.query == "x=1&y=a%20b" && !(g.params.size() == 2 && g.params.count("x") && g.params.find("x")->second == "1" && g.params.count("y") && g.params.find("y")->second == "a b")) { why = "query parameters"; return false; }
 	return true;
 }
+static size_t countOf(const std::string& hay, const char* needle) { size_t n = 0, p = 0; while ((p = hay.find(needle, p)) != std::string::npos) { n++; p++; } return n; }
+static bool smallBlock() {
+#ifdef ASL_VERIF_RECV_BLOCK
+	return true;
+#else
+	return false;
+#endif
+}
+// modes: 0 whole, 1 cut at pos (peer closes), 2 two chunks split at pos, 3 byte-wise, 4 read() returns 1 byte at a time,
+//        5 / 6 two parts split at pos with a peer that stalls 7 / 12 seconds in between (server timeouts are 5 and 10 seconds)
 static void streamCase(const Stream& s, int mode, int pos, const std::string& kase) {
 	g_case = kase; vf::cur(kase); vf::add(C_EVAL); vf::add(C_DIST);
 	std::vector<std::string> ch; int readMax = 0; bool full = true;
-	if (mode == 0) ch.push_back(s.bytes);
-	else if (mode == 1) { ch.push_back(s.bytes.substr(0, pos)); full = false; vf::add(W_TRUNC); if (pos == 0) ch.clear(); }
-	else if (mode == 2) { ch.push_back(s.bytes.substr(0, pos)); ch.push_back(s.bytes.substr(pos)); vf::add(W_SPLIT); }
-	else if (mode == 3) { for (size_t i = 0; i < s.bytes.size(); i++) ch.push_back(s.bytes.substr(i, 1)); }
-	else { ch.push_back(s.bytes); readMax = 1; }
-	Outcome o = runStream(ch, readMax, s.fileRoot);
-	std::string what = "stream " + s.name + fmt(" (delivery mode %d, position %d)", mode, pos);
+	if (pos < 0 || pos > (int)s.bytes.size()) return;
+	Outcome o;
+	bool stalled = mode == 5 || mode == 6; int stall = mode == 5 ? 7 : 12;
+	if (stalled) { o = runStalled(s.bytes.substr(0, pos), s.bytes.substr(pos), stall, s.fileRoot); vf::add(W_STALL); if (o.vtime >= 5) vf::add(W_STALL_TIMEOUT); }
+	else {
+		if (mode == 0) ch.push_back(s.bytes);
+		else if (mode == 1) { ch.push_back(s.bytes.substr(0, pos)); full = false; vf::add(W_TRUNC); if (pos == 0) ch.clear(); }
+		else if (mode == 2) { ch.push_back(s.bytes.substr(0, pos)); ch.push_back(s.bytes.substr(pos)); vf::add(W_SPLIT); }
+		else if (mode == 3) { for (size_t i = 0; i < s.bytes.size(); i++) ch.push_back(s.bytes.substr(i, 1)); }
+		else { ch.push_back(s.bytes); readMax = 1; }
+		o = runStream(ch, readMax, s.fileRoot, s.longline ? 100000 : 20000, !s.longline);
+	}
+	std::string what = "stream " + s.name + fmt(" (delivery mode %d, position %d)", mode, pos) + (smallBlock() ? " [5-byte receive block]" : "");
 	commonChecks(o, kase, what);
 	if (s.bytes.find("chunked") != std::string::npos) vf::add(W_CHUNKED);
 	if (s.bytes.find("Content-Length: 3") != std::string::npos) vf::add(W_LENGTH_BODY);
@@ -170,11 +353,44 @@ static void streamCase(const Stream& s, int mode, int pos, const std::string& ka
 	if (s.bytes.find("Expect:") != std::string::npos) vf::add(W_EXPECT);
 	if (s.bytes.find("\r\n  w") != std::string::npos) vf::add(W_FOLDED);
 	if (s.expect.size() == 2) vf::add(W_KEEPALIVE);
-	if (!s.wellformed || !full) { if (o.got.empty()) vf::add(W_DROPPED); return; }
+	// what was written back (observed, not demanded: interim responses and Range replies are the subject of C10)
+	vf::add(W_R100, countOf(o.written, "HTTP/1.1 100 ")); vf::add(W_R417, countOf(o.written, "HTTP/1.1 417 "));
+	if (s.fileRoot) {
+		if (o.written.find(" 200 ") != std::string::npos && o.written.find("012345") != std::string::npos) vf::add(W_F200);
+		vf::add(W_F206, countOf(o.written, " 206 ")); vf::add(W_F416, countOf(o.written, " 416 ")); vf::add(W_F404, countOf(o.written, " 404 "));
+		if (s.outside && !o.got.empty()) vf::add(W_OUTSIDE_TRIED);
+	}
+	if (s.kind == K_OPTIONAL && (full || stalled)) {
+		if (o.got.size() > 1) { vf::violation("spurious_request", fmt("%d requests delivered for the single request of ", (int)o.got.size()) + what + "; second: " + showRec(o.got[1]), kase); return; }
+		if (o.got.empty()) { vf::add(s.longline ? W_LONG_DROPPED : s.badline ? W_BADLINE_DROPPED : W_DROPPED); return; }
+		std::string why; bool any = false;
+		for (size_t i = 0; i < s.expect.size() && !any; i++) any = sameRec(o.got[0], s.expect[i], why, stalled);
+		if (!any) vf::violation("request_fields", "request of " + what + " was neither refused nor delivered as sent: " + why + "; delivered: " + showRec(o.got[0]), kase);
+		else vf::add(s.longline ? W_LONG_DELIVERED : s.badline ? W_BADLINE_LENIENT : W_DELIVERED);
+		return;
+	}
+	if (s.kind != K_EXACT || !full) { if (o.got.empty()) vf::add(W_DROPPED); return; }
+	if (stalled) {
+		// the peer was slow: the server may have given up on it (fewer requests, a body that stops early), but what it hands over is what was sent
+		if (o.got.size() > s.expect.size()) { vf::violation("request_count", fmt("%d request(s) delivered instead of %d for ", (int)o.got.size(), (int)s.expect.size()) + what, kase); return; }
+		bool partial = false;
+		for (size_t i = 0; i < o.got.size(); i++) { std::string why; if (!sameRec(o.got[i], s.expect[i], why, true)) vf::violation("request_fields", fmt("request %d of ", (int)i + 1) + what + ": " + why, kase); else if (o.got[i].body != s.expect[i].body) partial = true; }
+		if (partial) vf::add(W_STALL_PARTIAL); else if (o.got.size() == s.expect.size()) vf::add(W_STALL_DELIVERED); else vf::add(W_STALL_GAVEUP);
+		return;
+	}
 	// complete, well-formed stream: every request is delivered exactly once, in order, as sent
 	if (o.got.size() != s.expect.size()) { vf::violation("request_count", fmt("%d request(s) delivered instead of %d for ", (int)o.got.size(), (int)s.expect.size()) + what + (o.got.empty() ? "" : "; first: " + showRec(o.got[0])), kase); return; }
-	vf::add(W_DELIVERED);
-	for (size_t i = 0; i < s.expect.size(); i++) { std::string why; if (!sameRec(o.got[i], s.expect[i], why)) vf::violation("request_fields", fmt("request %d of ", (int)i + 1) + what + ": " + why, kase); }
+	bool allok = true;
+	for (size_t i = 0; i < s.expect.size(); i++) { std::string why; if (!sameRec(o.got[i], s.expect[i], why)) { allok = false; vf::violation("request_fields", fmt("request %d of ", (int)i + 1) + what + ": " + why, kase); } }
+	if (!allok) return;
+	vf::add(W_DELIVERED); vf::add(W_EXACTHDR, s.expect.size());
+	const Rec& e0 = s.expect[0];
+	if (e0.headers.count("x-a") && e0.headers.find("x-a")->second.empty()) vf::add(W_EMPTYVAL);
+	if (s.bytes.find("\r\n\tw") != std::string::npos) vf::add(W_TABFOLD);
+	if (s.bytes.find("\r\n\tx") != std::string::npos) vf::add(W_FOLD3);
+	if (e0.headers.count("transfer-encoding") && e0.body.size() >= 10) vf::add(W_HEXCHUNK);
+	if (s.bytes.find("3;x=1") != std::string::npos) vf::add(W_HEXCHUNK);
+	if (smallBlock() && e0.body.size() > 5) vf::add(W_BLOCKX);
 }
 
 // ---- part D: query parameters: "k=v(&k=v)" built from tokens; the handler must see the decoded pairs (form decoding: '+' is a space, %XX a byte)
@@ -210,48 +426,107 @@ static void urlCase(const std::string& u, const std::string& kase) {
 static std::vector<Stream> g_streams;
 static const char* TA[] = { ".", "/", "%2e", "%2f", "%25", "a" };
 static const char* TB[] = { "/", "a", "?", "#", "=", "&", "%", "+" };
+static const char* TA0[] = { ".", "/", "%2e", "%2f", "%25", "a", "%00" }; // TA plus the escape of a NUL byte (case strings "t0:")
 static const char UA[] = "a:/[]%2e?#@";
 static void run_case(const std::string& k) {
 	int a, b, c; unsigned long long u;
 	if (sscanf(k.c_str(), "tA:%d:%llu", &a, &u) == 2) targetCase("/" + tokString(TA, 6, a, u), k);
 	else if (sscanf(k.c_str(), "tB:%d:%llu", &a, &u) == 2) targetCase("/" + tokString(TB, 8, a, u), k);
-	else if (sscanf(k.c_str(), "st:%d:%d:%d", &a, &b, &c) == 3) { if (g_streams.empty()) g_streams = streams(); if (a < (int)g_streams.size()) streamCase(g_streams[a], b, c, k); }
+	else if (sscanf(k.c_str(), "t0:%d:%llu", &a, &u) == 2) targetCase("/" + tokString(TA0, 7, a, u), k);
+	else if (sscanf(k.c_str(), "st:%d:%d:%d", &a, &b, &c) == 3 || sscanf(k.c_str(), "sb:%d:%d:%d", &a, &b, &c) == 3) {
+		if (g_streams.empty()) g_streams = streams();
+		if (a >= 0 && a < (int)g_streams.size()) streamCase(g_streams[a], b, c, k);
+	}
 	else if (k.compare(0, 4, "url:") == 0) urlCase(vf::unhex(k.substr(4)), k);
 	else { int k1, v1, k2, v2; if (sscanf(k.c_str(), "qp:%d:%d:%d:%d", &k1, &v1, &k2, &v2) == 4) queryCase(k1, v1, k2, v2, k); }
 }
 
+struct J { int s, mode, pos; };
+static void streamJobs(std::vector<J>& jobs, bool T, bool small) {
+	for (size_t si = 0; si < g_streams.size(); si++) {
+		const Stream& s = g_streams[si];
+		if (s.thoroughOnly && !T) continue;
+		int n = (int)s.bytes.size();
+		if (small) {
+			// only what the receive block matters for: requests with a body, and file responses (the file reader uses the same block)
+			bool hasBody = n > 0 && s.bytes.compare(n - 4, 4, "\r\n\r\n") != 0;
+			bool chunkedBody = s.bytes.find("chunked") != std::string::npos;
+			if (!((s.core || T) && (hasBody || chunkedBody || s.fileRoot)) || s.longline || s.badline) continue;
+		}
+		J j = { (int)si, 0, 0 }; jobs.push_back(j); j.mode = 3; jobs.push_back(j); j.mode = 4; jobs.push_back(j);
+		if (s.longline) {
+			for (size_t p = 0; p < s.positions.size(); p++) { J t = { (int)si, 1, s.positions[p] }; jobs.push_back(t); t.mode = 2; jobs.push_back(t); }
+			continue;
+		}
+		for (int p = 0; p < n; p++) { J t = { (int)si, 1, p }; jobs.push_back(t); }
+		for (int p = 1; p < n; p++) { J t = { (int)si, 2, p }; jobs.push_back(t); }
+		if (!small && (T || s.core)) for (int m = 5; m <= 6; m++) for (int p = 0; p < n; p++) { J t = { (int)si, m, p }; jobs.push_back(t); }
+	}
+}
+
+// a clean run in which an enumerated family never reached its branch is not a pass: it is marked non-exhaustive
+struct Need { int counter; const char* name; };
+#define NEED(c) { c, #c }
+static void needWitness(const Need* w, size_t n) {
+	if (vf::nviolations()) return; // a flood stops the exploration early
+	for (size_t i = 0; i < n; i++) if (vf::get(w[i].counter) == 0) vf::cap_hit(std::string("vacuous: witness ") + w[i].name + " is 0");
+}
 int main(int argc, char** argv) {
-	vf::init(argc, argv, "C09", "s_c09_http");
+	bool small = false; for (int i = 1; i < argc; i++) if (!strcmp(argv[i], "--small")) small = true;
+	vf::init(argc, argv, "C09", small ? "s_c09_http_small" : "s_c09_http");
 	C_EVAL = vf::counter("evaluations"); C_DIST = vf::counter("distinct_nontrivial"); C_EXEC = vf::counter("traces"); C_POINTS = vf::counter("transitions"); vf::counter("states");
 	W_DELIVERED = vf::counter("w.requests_delivered_and_compared"); W_DROPPED = vf::counter("w.connections_dropped_without_request"); W_DOTDOT = vf::counter("w.targets_decoding_to_dotdot"); W_CHUNKED = vf::counter("w.chunked_bodies"); W_LENGTH_BODY = vf::counter("w.content_length_bodies");
 	W_KEEPALIVE = vf::counter("w.pipelined_keepalive"); W_RANGE = vf::counter("w.range_requests"); W_TRUNC = vf::counter("w.streams_cut_early"); W_SPLIT = vf::counter("w.streams_delivered_in_two_chunks"); W_EXPECT = vf::counter("w.expect_100"); W_FOLDED = vf::counter("w.folded_headers"); W_QUERY = vf::counter("w.query_parameter_sets_compared");
+	W_NUL_PATH = vf::counter("w.delivered_paths_containing_nul"); W_NUL_DOTDOT = vf::counter("w.targets_with_dotdot_behind_a_nul");
+	W_BADLINE_DROPPED = vf::counter("w.malformed_request_lines_refused"); W_BADLINE_LENIENT = vf::counter("w.malformed_request_lines_read_leniently");
+	W_HEXCHUNK = vf::counter("w.hex_or_extended_chunk_sizes_compared"); W_LONG_DELIVERED = vf::counter("w.lines_at_cap_delivered"); W_LONG_DROPPED = vf::counter("w.lines_over_cap_refused");
+	W_EMPTYVAL = vf::counter("w.empty_header_values_compared"); W_EXACTHDR = vf::counter("w.exact_header_maps_compared"); W_TABFOLD = vf::counter("w.tab_folds_compared"); W_FOLD3 = vf::counter("w.three_line_folds_compared");
+	W_R100 = vf::counter("w.responses_100_continue"); W_R417 = vf::counter("w.responses_417"); W_F200 = vf::counter("w.file_served_200_with_content"); W_F206 = vf::counter("w.file_responses_206"); W_F416 = vf::counter("w.file_responses_416"); W_F404 = vf::counter("w.file_responses_404");
+	W_BLOCKX = vf::counter("w.bodies_longer_than_receive_block_compared");
+	W_STALL = vf::counter("w.stalled_peer_executions"); W_STALL_TIMEOUT = vf::counter("w.stalled_with_select_timeout"); W_STALL_DELIVERED = vf::counter("w.stalled_all_delivered"); W_STALL_PARTIAL = vf::counter("w.stalled_body_cut_by_timeout"); W_STALL_GAVEUP = vf::counter("w.stalled_connection_given_up");
+	W_OUTSIDE_TRIED = vf::counter("w.outside_root_requests_handled");
 	vsched::set_fatal_handler(onFatal);
 	vsched::set_state_probe(vnet::state_hash);
-	g_root = vf::scratch_dir() + "/root"; if (system(("mkdir -p '" + g_root + "/sub' && printf 012345 > '" + g_root + "/f.txt'").c_str())) {}
+	// web root with one file and one directory; a file next to the root that must never be served
+	g_root = vf::scratch_dir() + "/root";
+	{
+		int rc = system(("mkdir -p '" + g_root + "/sub' && printf 012345 > '" + g_root + "/f.txt' && printf " + SECRET + " > '" + vf::scratch_dir() + "/secret.txt'").c_str());
+		struct stat st;
+		if (rc != 0 || stat((g_root + "/f.txt").c_str(), &st) != 0 || st.st_size != 6 || stat((vf::scratch_dir() + "/secret.txt").c_str(), &st) != 0) { fprintf(stderr, "HARNESS ERROR: cannot create the web root %s\n", g_root.c_str()); return 2; }
+	}
 	g_streams = streams();
+	if (vf::opt.replay && vf::opt.kase.compare(0, 3, "sb:") == 0 && !smallBlock()) fprintf(stderr, "note: case %s was found with the 5-byte receive block; replay it with <build>/asan_small/bin/s_c09_http --small --case %s\n", vf::opt.kase.c_str(), vf::opt.kase.c_str());
 	if (vf::opt.replay) { vf::parallel(1, [&](uint64_t) { run_case(vf::opt.kase); }); return vf::finish(); }
 	bool T = vf::opt.thorough();
+	if (small) {
+		if (!smallBlock()) { fprintf(stderr, "HARNESS ERROR: --small needs the asan_small flavour (ASL_VERIF_RECV_BLOCK)\n"); return 2; }
+		std::vector<J> jobs; streamJobs(jobs, T, true);
+		vf::parallel(jobs.size(), [&](uint64_t i) { run_case(fmt("sb:%d:%d:%d", jobs[i].s, jobs[i].mode, jobs[i].pos)); }, 16);
+		vf::setinfo("streams", fmt("{\"stream_executions\": %d, \"receive_block\": 5}", (int)jobs.size()));
+		{ const Need need[] = { NEED(W_BLOCKX), NEED(W_HEXCHUNK), NEED(W_F200), NEED(W_F206), NEED(W_DELIVERED) }; needWitness(need, sizeof need / sizeof *need); }
+		vf::sample("POST ... Transfer-Encoding: chunked | 10 CRLF 0123456789abcdef CRLF 0 CRLF CRLF read through a 5-byte receive block: whole, cut and split at every byte, byte-wise, read(1)");
+		return vf::finish();
+	}
 	// A: every target over the two token alphabets
 	for (int len = 0; len <= (T ? 8 : 6); len++) { uint64_t n = 1; for (int i = 0; i < len; i++) n *= 6; vf::parallel(n, [&](uint64_t i) { run_case(fmt("tA:%d:%llu", len, (unsigned long long)i)); }, 64); if (vf::deadline_passed()) { vf::cap_hit("deadline in targets A"); break; } }
 	for (int len = 0; len <= (T ? 6 : 5); len++) { uint64_t n = 1; for (int i = 0; i < len; i++) n *= 8; vf::parallel(n, [&](uint64_t i) { run_case(fmt("tB:%d:%llu", len, (unsigned long long)i)); }, 64); }
 	// B: streams x delivery modes
-	struct J { int s, mode, pos; }; std::vector<J> jobs;
-	for (size_t s = 0; s < g_streams.size(); s++) {
-		int n = (int)g_streams[s].bytes.size();
-		J j = { (int)s, 0, 0 }; jobs.push_back(j); j.mode = 3; jobs.push_back(j); j.mode = 4; jobs.push_back(j);
-		for (int p = 0; p < n; p++) { J t = { (int)s, 1, p }; jobs.push_back(t); }
-		for (int p = 1; p < n; p++) { J t = { (int)s, 2, p }; jobs.push_back(t); }
-	}
+	std::vector<J> jobs; streamJobs(jobs, T, false);
 	vf::parallel(jobs.size(), [&](uint64_t i) { run_case(fmt("st:%d:%d:%d", jobs[i].s, jobs[i].mode, jobs[i].pos)); }, 16);
-	vf::setinfo("streams", fmt("{\"streams\": %d, \"stream_executions\": %d}", (int)g_streams.size(), (int)jobs.size()));
+	{ int ns = 0; for (size_t i = 0; i < g_streams.size(); i++) if (T || !g_streams[i].thoroughOnly) ns++; vf::setinfo("streams", fmt("{\"streams\": %d, \"stream_executions\": %d}", ns, (int)jobs.size())); }
 	// D: query parameters
 	vf::parallel(90, [&](uint64_t k1) { for (int v1 = 0; v1 < 91; v1++) run_case(fmt("qp:%d:%d:-1:0", (int)k1, v1)); });
 	vf::parallel(9 * 10, [&](uint64_t i) { int k1 = (int)(i % 9), v1 = (int)(i / 9); for (int k2 = 0; k2 < 9; k2++) for (int v2 = 0; v2 < 10; v2++) run_case(fmt("qp:%d:%d:%d:%d", k1, v1, k2, v2)); });
 	// C: URL strings
 	int NU = (int)strlen(UA);
 	for (int len = 0; len <= (T ? 7 : 6); len++) { uint64_t n = 1; for (int i = 0; i < len; i++) n *= NU; vf::parallel((n + 255) / 256, [&](uint64_t blk) { for (uint64_t i = blk * 256; i < (blk + 1) * 256 && i < n; i++) { std::string s; uint64_t x = i; for (int k = 0; k < len; k++) { s += UA[x % NU]; x /= NU; } urlCase(s, "url:" + vf::hex(s)); } }); }
-	vf::sample("GET /%2e%2e/%2e./a HTTP/1.1 ; GET /a#b?c HTTP/1.1 (every target over {. / %2e %2f %25 a} and {/ a ? # = & % +})");
-	vf::sample("POST /u HTTP/1.1 | Host: h | X-A:v | Content-Length: 10 | abc<EOF>  cut at every byte, split in two at every byte, byte-wise, read(1)");
+	// A0 (last: on a tree where '..' survives behind a NUL this family floods): every target over TA + "%00" with at least one "%00"
+	for (int len = 1; len <= (T ? 7 : 5); len++) { uint64_t n = 1; for (int i = 0; i < len; i++) n *= 7; vf::parallel(n, [&](uint64_t i) { if (hasDigit(7, len, i, 6)) run_case(fmt("t0:%d:%llu", len, (unsigned long long)i)); }, 64); if (vf::deadline_passed()) { vf::cap_hit("deadline in targets A0"); break; } }
+	{ const Need need[] = { NEED(W_NUL_DOTDOT), NEED(W_NUL_PATH), NEED(W_BADLINE_DROPPED), NEED(W_BADLINE_LENIENT), NEED(W_HEXCHUNK), NEED(W_LONG_DELIVERED), NEED(W_LONG_DROPPED), NEED(W_EXACTHDR), NEED(W_TABFOLD), NEED(W_STALL_TIMEOUT), NEED(W_STALL_DELIVERED), NEED(W_STALL_PARTIAL), NEED(W_STALL_GAVEUP), NEED(W_F200), NEED(W_F206), NEED(W_F416), NEED(W_F404), NEED(W_R100), NEED(W_R417), NEED(W_OUTSIDE_TRIED), NEED(W_DELIVERED), NEED(W_QUERY), NEED(W_DOTDOT) };
+	  needWitness(need, sizeof need / sizeof *need); }
+	vf::sample("GET /%2e%2e/%2e./a HTTP/1.1 ; GET /a#b?c HTTP/1.1 ; GET /a%00/../x HTTP/1.1 (every target over {. / %2e %2f %25 a}, {/ a ? # = & % +}, {. / %2e %2f %25 a %00})");
+	vf::sample("POST /u HTTP/1.1 | Host: h | X-A:v | Content-Length: 10 | abc<EOF>  cut at every byte, split in two at every byte, byte-wise, read(1), peer stalling 7 s / 12 s at every byte");
 	vf::sample("Url(\"[a/]:9\"), Url::decode(\"%\"), Url::parseQuery(\"a=%2\")");
+	vf::sample("GET /aaa...(15986 a) HTTP/1.1: request line of 16001 bytes (delivered) / 16002 bytes (refused); 'GET' / 'GET /a' / 'GET  HTTP/1.1' as request lines");
 	return vf::finish();
 }
